@@ -235,6 +235,13 @@ func checkC19(c caseC19) (viol string, nontrivial bool, feats []string) {
 			blocks++
 		}
 	}
+	if c.Class == "huge-counters" {
+		// hundreds of kilobytes of trace per run: two entry points suffice
+		entries = []string{"Interpret"}
+		if whole.err == nil {
+			entries = append(entries, "LoadProg+Execute")
+		}
+	}
 	for _, entry := range entries {
 		base := runEntry(entry, c, false, false, false, whole.dump)
 		if base.pan != nil {
@@ -458,6 +465,15 @@ func TestC19(t *testing.T) {
 				sb.WriteString("print 5\nprint v3 + v4\n")
 			}
 			src = sb.String()
+		}
+		if gen.Uniform(t, 300, "hugecounters") == 0 {
+			// statistics with six-digit counters: more than 100 000 tokens
+			class = "huge-counters"
+			n := gen.Pick(t, "hugeN", []int{33400, 50000})
+			src = strings.Repeat(gen.Pick(t, "hugeunit", []string{"eval 0;", "eval 0\n", "print 0 ", "eval 1+2 "}), n)
+			if gen.Bool(t, "hugefails") {
+				src += "\nprint 1/0\n"
+			}
 		}
 		c := caseC19{Src: src, Class: class}
 		_, c.Script = drawScript(t, len(src))
